@@ -229,6 +229,38 @@ func dumpToCoq(d *linker.VerifC04Dump) (string, bool) {
 			w(b2i(p.IsLive))
 		}
 	}
+	// ImportsToBind: (file, using parts, target file, target symbol, re-export chain)
+	type bnd struct {
+		file int
+		b    linker.VerifC04Binding
+	}
+	var bs []bnd
+	for s, f := range d.Files {
+		for _, b := range f.Bindings {
+			bs = append(bs, bnd{s, b})
+		}
+	}
+	sort.Slice(bs, func(i, j int) bool {
+		a, b := bs[i], bs[j]
+		if a.file != b.file {
+			return a.file < b.file
+		}
+		if a.b.ImportRef != b.b.ImportRef {
+			return a.b.ImportRef[0] < b.b.ImportRef[0] || (a.b.ImportRef[0] == b.b.ImportRef[0] && a.b.ImportRef[1] < b.b.ImportRef[1])
+		}
+		return a.b.TargetRef[1] < b.b.TargetRef[1]
+	})
+	w(int64(len(bs)))
+	for _, x := range bs {
+		w(int64(x.file), int64(len(x.b.LocalPartsWithUses)))
+		for _, u := range x.b.LocalPartsWithUses {
+			w(int64(u))
+		}
+		w(int64(x.b.TargetSource), sym(x.b.TargetRef), int64(len(x.b.ReExports)))
+		for _, re := range x.b.ReExports {
+			w(int64(re[0]), int64(re[1]))
+		}
+	}
 	return CZList(out), sawRemovable && sawKept
 }
 
@@ -240,6 +272,46 @@ func checkDumpPredicates(d *linker.VerifC04Dump) string {
 			for k, sy := range p.Declared {
 				if !p.DeclaredIsImport[k] {
 					declaring[sy] = append(declaring[sy], [2]int{s, i})
+				}
+			}
+		}
+	}
+	hasDep := func(p linker.VerifC04Part, t, j uint32) bool {
+		for _, dp := range p.Deps {
+			if dp[0] == t && dp[1] == j {
+				return true
+			}
+		}
+		return false
+	}
+	for s, f := range d.Files {
+		// a live part that uses an import keeps the whole re-export chain live
+		for _, b := range f.Bindings {
+			for _, u := range b.LocalPartsWithUses {
+				if int(u) >= len(f.Parts) {
+					return fmt.Sprintf("binding of file %d names part %d which does not exist", s, u)
+				}
+				for _, re := range b.ReExports {
+					if !hasDep(f.Parts[u], re[0], re[1]) {
+						return fmt.Sprintf("part %d/%d uses an import but does not depend on the re-export statement %d/%d of its chain", s, u, re[0], re[1])
+					}
+					if f.Parts[u].IsLive && !d.Files[re[0]].Parts[re[1]].IsLive {
+						return fmt.Sprintf("live part %d/%d uses an import whose re-export statement %d/%d (%s) was removed", s, u, re[0], re[1], d.Files[re[0]].Path)
+					}
+				}
+			}
+		}
+		// a part that imports a wrapped file depends on its wrapper part
+		for i, p := range f.Parts {
+			for _, im := range p.Imports {
+				if im.Valid && int(im.Target) < len(d.Files) && d.Files[im.Target].Wrap != 0 && d.Files[im.Target].WrapperPart >= 0 && ast.ImportKind(im.Kind) != ast.ImportDynamic {
+					wp := uint32(d.Files[im.Target].WrapperPart)
+					if !hasDep(p, im.Target, wp) {
+						return fmt.Sprintf("part %d/%d imports the wrapped file %s but does not depend on its wrapper part %d", s, i, d.Files[im.Target].Path, wp)
+					}
+					if p.IsLive && !d.Files[im.Target].Parts[wp].IsLive {
+						return fmt.Sprintf("live part %d/%d imports the wrapped file %s whose wrapper part was removed", s, i, d.Files[im.Target].Path)
+					}
 				}
 			}
 		}
@@ -312,6 +384,15 @@ func tieGraphs(r *Rng, st *Stats, cf *CoqFile, n int) {
 			continue
 		}
 		for k, dump := range dumps {
+			for _, f := range dump.Files {
+				st.Histogram["dump:import-bindings"] += len(f.Bindings)
+				for _, b := range f.Bindings {
+					st.Histogram["dump:re-export-chain-links"] += len(b.ReExports)
+				}
+				if f.Wrap != 0 {
+					st.Histogram["dump:wrapped-files"]++
+				}
+			}
 			term, nontrivial := dumpToCoq(dump)
 			items = append(items, term)
 			st.Note("graph", fmt.Sprint(k)+mg.Text()+o.String(), nontrivial)
